@@ -85,6 +85,10 @@ type Gen struct {
 	entry       *State
 	stack       []*ssa.Function
 	needDivFns  bool
+	heapConsts  []string
+	constKey    map[string]string
+	pureKeys    map[string][]string
+	keyType     map[string]types.Type
 	topFrame    *Frame
 	noHoist     int
 	pureHeap    map[string]bool
@@ -383,7 +387,9 @@ const goDivDefs = `(define-fun go_div ((a Int) (b Int)) Int (ite (>= a 0) (ite (
 type Heap struct {
 	vals  map[string]string
 	base  *Epoch
-	dirty string // SMT Bool: some pre-existing (not freshly allocated) location or an unknown one may have been modified ("" = false)
+	// dirty: per heap key, an SMT Bool saying that some pre-existing (not freshly allocated) location of that key
+	// may have been modified since function entry; key "*" covers every key (unknown callee).
+	dirty map[string]string
 }
 
 type Epoch struct {
@@ -391,7 +397,8 @@ type Epoch struct {
 	parts     []epochPart
 	memo      map[string]string
 	g         *Gen
-	ghostPrev *Heap // root epochs created by a heap havoc that keeps ghost state
+	ghostPrev *Heap  // root epochs created by a heap havoc that keeps ghost state
+	top       string // allocation watermark when this (root) heap value came into being: every reference stored in it is <= top
 }
 
 type epochPart struct {
@@ -421,7 +428,10 @@ func (h *Heap) get(g *Gen, key string) string {
 func (h *Heap) set(key, v string) {
 	h.vals[key] = v
 	if !strings.HasPrefix(key, "G:") {
-		h.dirty = "true"
+		if h.dirty == nil {
+			h.dirty = map[string]string{}
+		}
+		h.dirty[key] = "true"
 	}
 }
 
@@ -429,7 +439,13 @@ func (h *Heap) set(key, v string) {
 func (h *Heap) setFresh(key, v string) { h.vals[key] = v }
 
 func (h *Heap) clone() *Heap {
-	n := &Heap{vals: make(map[string]string, len(h.vals)), base: h.base, dirty: h.dirty}
+	n := &Heap{vals: make(map[string]string, len(h.vals)), base: h.base}
+	if len(h.dirty) > 0 {
+		n.dirty = make(map[string]string, len(h.dirty))
+		for k, v := range h.dirty {
+			n.dirty[k] = v
+		}
+	}
 	for k, v := range h.vals {
 		n.vals[k] = v
 	}
@@ -451,6 +467,14 @@ func (e *Epoch) get(key string) string {
 	} else if len(e.parts) == 0 {
 		v = fmt.Sprintf("h%d_%s", e.id, sanitize(key))
 		g.emit(fmt.Sprintf("(declare-const %s %s)", v, srt))
+		g.heapConsts = append(g.heapConsts, v)
+		if g.constKey == nil {
+			g.constKey = map[string]string{}
+		}
+		g.constKey[v] = key
+		if e.top != "" && !strings.HasPrefix(key, "G:") {
+			g.heapRefBound(v, key, e.top)
+		}
 		if strings.HasPrefix(key, "G:") {
 			if gv := g.ghostRange(key); gv != "" {
 				g.assume(strings.ReplaceAll(gv, "$v", v))
@@ -473,8 +497,11 @@ func (e *Epoch) get(key string) string {
 				expr = ite(e.parts[i].cond, vals[i], expr)
 			}
 			// a declared constant (not a macro) so that heap terms stay atomic inside quantifier patterns
+			nh := g.noHoist
+			g.noHoist = 0 // merged heap values are ground terms: declare them at top level even under a binder
 			v = g.declare("hm", srt)
 			g.assume("(= " + v + " " + expr + ")")
+			g.noHoist = nh
 		}
 	}
 	e.memo[key] = v
@@ -489,15 +516,28 @@ func (g *Gen) mergeHeaps(parts []epochPart) *Heap {
 		return parts[0].h.clone()
 	}
 	g.nf++
-	var ds []string
+	d := map[string]string{}
+	keys := map[string]bool{}
 	for _, p := range parts {
-		if p.h.dirty != "" && p.h.dirty != "false" {
-			ds = append(ds, and(p.cond, p.h.dirty))
+		for k := range p.h.dirty {
+			keys[k] = true
 		}
 	}
-	d := ""
-	if len(ds) > 0 {
-		d = g.define("dirty", "Bool", or(ds...))
+	var ks []string
+	for k := range keys {
+		ks = append(ks, k)
+	}
+	sort.Strings(ks)
+	for _, k := range ks {
+		var ds []string
+		for _, p := range parts {
+			if v := p.h.dirty[k]; v != "" && v != "false" {
+				ds = append(ds, and(p.cond, v))
+			}
+		}
+		if len(ds) > 0 {
+			d[k] = g.define("dirty", "Bool", or(ds...))
+		}
 	}
 	return &Heap{vals: map[string]string{}, base: &Epoch{id: g.nf, parts: parts, memo: map[string]string{}, g: g}, dirty: d}
 }
@@ -505,19 +545,36 @@ func (g *Gen) mergeHeaps(parts []epochPart) *Heap {
 // havocHeap returns a heap where every non-ghost key is unknown; ghost keys (G:) are kept unless alsoGhost.
 func (g *Gen) havocHeap(h *Heap, alsoGhost bool) *Heap {
 	n := g.newRootHeap()
-	n.dirty = "true"
+	n.dirty = map[string]string{"*": "true"}
 	if !alsoGhost {
 		n.base.ghostPrev = h
 	}
+	// the unknown callee may have allocated: new watermark, and everything stored in the new heap is below it
+	k := g.topKey()
+	old := h.get(g, k)
+	nt := g.declare("top", "Int")
+	g.assume("(>= " + nt + " " + old + ")")
+	n.vals[k] = nt
+	n.base.top = nt
 	return n
 }
 
 // ---- heap keys --------------------------------------------------------------------------
 
+func (g *Gen) setKeyType(key string, t types.Type) {
+	if g.keyType == nil {
+		g.keyType = map[string]types.Type{}
+	}
+	g.keyType[key] = t
+}
+
 func (g *Gen) fieldKey(st types.Type, i int) (key, srt string) {
 	si := g.S.structInfoOf(st)
 	key = fmt.Sprintf("H:%s.%d", si.name, i)
 	srt = "(Array Int " + si.fsorts[i] + ")"
+	if su, ok := st.Underlying().(*types.Struct); ok && i < su.NumFields() {
+		g.setKeyType(key, su.Field(i).Type())
+	}
 	g.heapKeySort(key, srt)
 	return
 }
@@ -526,6 +583,7 @@ func (g *Gen) ptrKey(t types.Type) (key, srt string) {
 	es := g.S.sortOf(t)
 	key = "P:" + es
 	srt = "(Array Int " + es + ")"
+	g.setKeyType(key, t)
 	g.heapKeySort(key, srt)
 	return
 }
@@ -534,6 +592,7 @@ func (g *Gen) elemKey(t types.Type) (key, srt string) {
 	es := g.S.sortOf(t)
 	key = "E:" + es
 	srt = "(Array Int (Array " + g.idxSort() + " " + es + "))"
+	g.setKeyType(key, t)
 	g.heapKeySort(key, srt)
 	return
 }
@@ -594,4 +653,75 @@ func (g *Gen) attachRegion(o *Obligation) {
 		o.regionTerm = g.define("region", "Bool", t)
 		o.nlines = len(g.lines)
 	}
+}
+
+// dirtyFor: condition under which some key in keys (or anything at all) may have been modified in heap h.
+func (h *Heap) dirtyFor(keys []string) string {
+	var ds []string
+	if v := h.dirty["*"]; v != "" && v != "false" {
+		ds = append(ds, v)
+	}
+	for _, k := range keys {
+		if k == "*all*" {
+			var all []string
+			for kk := range h.dirty {
+				all = append(all, kk)
+			}
+			sort.Strings(all)
+			for _, kk := range all {
+				if v := h.dirty[kk]; v != "" && v != "false" {
+					ds = append(ds, v)
+				}
+			}
+			continue
+		}
+		if v := h.dirty[k]; v != "" && v != "false" {
+			ds = append(ds, v)
+		}
+	}
+	return or(ds...)
+}
+
+// heapRefBound: references held in a root heap value do not exceed the allocation watermark of that heap
+// (so an object allocated later is distinct from everything reachable before).
+func (g *Gen) heapRefBound(v, key, top string) {
+	t := g.keyType[key]
+	if t == nil {
+		return
+	}
+	r := g.fresh("hr")
+	var elem, binders string
+	if strings.HasPrefix(key, "E:") {
+		i := g.fresh("hi")
+		elem = "(select (select " + v + " " + r + ") " + i + ")"
+		binders = "(" + r + " Int) (" + i + " " + g.idxSort() + ")"
+	} else {
+		elem = "(select " + v + " " + r + ")"
+		binders = "(" + r + " Int)"
+	}
+	b := g.refBoundOf(elem, t, top, 0)
+	if b == "true" {
+		return
+	}
+	g.emit("(assert (forall (" + binders + ") (! " + b + " :pattern (" + elem + "))))")
+}
+
+// refBoundOf: every reference directly contained in value term v of Go type t is <= top.
+func (g *Gen) refBoundOf(v string, t types.Type, top string, depth int) string {
+	switch u := t.Underlying().(type) {
+	case *types.Pointer, *types.Map, *types.Chan:
+		return "(<= " + v + " " + top + ")"
+	case *types.Slice:
+		return "(<= (sl_ref " + v + ") " + top + ")"
+	case *types.Struct:
+		if depth > 3 {
+			return "true"
+		}
+		var cs []string
+		for i := 0; i < u.NumFields(); i++ {
+			cs = append(cs, g.refBoundOf(g.S.structField(t, v, i), u.Field(i).Type(), top, depth+1))
+		}
+		return and(cs...)
+	}
+	return "true"
 }
